@@ -547,6 +547,7 @@ type FunDecl struct {
 	Def  string // optional SMT body using x0,x1...
 }
 type Axiom struct {
+	Pkg   string // only when this package is loaded
 	Label string
 	Tags  []string
 	E     Expr
@@ -748,12 +749,17 @@ func (sp *Specs) loadSpecFile(path, commentPrefix string, external bool) error {
 			cur = nil
 			continue
 		case "axiom":
+			needPkg := ""
+			if strings.HasPrefix(rest, "if-package ") {
+				parts := strings.SplitN(rest, " ", 3)
+				needPkg, rest = parts[1], parts[2]
+			}
 			tags, r2 := splitTags(rest)
 			cl, err := parseClause(tags, r2)
 			if err != nil {
 				return fail(err)
 			}
-			sp.Axioms = append(sp.Axioms, Axiom{Label: cl.Label, Tags: tags, E: cl.E, Src: cl.Src})
+			sp.Axioms = append(sp.Axioms, Axiom{Label: cl.Label, Tags: tags, E: cl.E, Src: cl.Src, Pkg: needPkg})
 			cur = nil
 			continue
 		case "func", "iface", "schema", "field", "dyncall":
